@@ -488,9 +488,14 @@ def common_summaries():
         sel = re.match(r'^(?:errors::)?(\w+Snafu)', fn).group(1)
         return [(st, build_error(ex, sel, argv[0] if argv else None))]
 
-    @reg(r' as Into<.*>>::into$|^must_use::<|<String as Clone>::clone$|<.* as ToString>::to_string$|<String as From<&str>>::from$|<str as ToOwned>::to_owned$|^String::as_str$|<String as AsRef<str>>::as_ref$|<String as Deref>::deref$|<&str as Into<String>>::into|<str as AsRef<str>>::as_ref|<String as Borrow<str>>::borrow$|<S as Into<String>>::into$|<S as AsRef<str>>::as_ref$|^<&String as Into<String>>')
+    @reg(r' as Into<.*>>::into$|^must_use::<|<String as Clone>::clone$|<.* as ToString>::to_string$|<String as From<&str>>::from$|<str as ToOwned>::to_owned$|^String::as_str$|<String as AsRef<str>>::as_ref$|<String as Deref>::deref$|<&str as Into<String>>::into|<str as AsRef<str>>::as_ref|<String as Borrow<str>>::borrow$|<S as Into<String>>::into$|<S as AsRef<str>>::as_ref$|^<&String as Into<String>>|^<Cow<.*str> as Deref>::deref$|^<Cow<.*str> as AsRef<str>>::as_ref$|^Cow::<.*str>::into_owned$|^<Cow<.*str> as Borrow<str>>::borrow$')
     def identity(ex, st, fn, argv):
-        return [(st, deref(ex, st, argv[0]))]
+        v = deref(ex, st, argv[0])
+        if isinstance(v, Enum) and v.ty and last_seg(strip_generics(v.ty)) == 'Cow' and isinstance(v.disc, int):
+            # Cow<str>: borrowed or owned, the text is the same
+            inner = v.payloads[v.disc].fields[0]
+            v = deref(ex, st, inner) if isinstance(inner, Ref) else inner
+        return [(st, v)]
 
     @reg(r'<&?(std::string::)?String as PartialEq(<.*>)?>::(eq|ne)$|<&?str as PartialEq(<.*>)?>::(eq|ne)$')
     def str_eq(ex, st, fn, argv):
